@@ -15,7 +15,10 @@ RULE = ('constraint graphs over up to 7 present names + 3 absent names + the two
         'distinct = distinct canonical case JSON.  Streams: direct TopologicalSorter; HISTORIES on one sorter (add / public '
         'remove / sorted() at arbitrary points, every answer judged against the declarations in force: all canonical '
         'histories of <= 5 ops over two names (with absent alternatives) and over three names + random ones over <= 5 names; a history is non-trivial when a present '
-        'name is removed or sorted() is asked at least twice); add_tween via Configurator '
+        'name is removed or sorted() is asked at least twice); PREDICATE histories through the Configurator '
+        '(add_view/route/subscriber_predicate with weighs_more_than/weighs_less_than over several commits, re-adds with other '
+        'hints or factories, a consumer committed in every round, the order PredicateList.make uses read back after '
+        'every round); add_tween via Configurator '
         '(implicit + explicit pyramid.tweens) observed through enter/exit logs of a real request; '
         'add_view_deriver via Configurator observed through the wrapping order around a real view call')
 
@@ -377,6 +380,286 @@ def small_histories(k, alts, maxlen, flavours=('plain', 'tween')):
                 continue
             for fl in flavours:
                 yield {'flavour': fl, 'hops': [list(o) for o in body] + [['sorted']]}
+
+
+# ---------------------------------------------------------------- PREDICATE histories through the real Configurator
+# add_view_predicate / add_route_predicate / add_subscriber_predicate with weighs_more_than (= after) / weighs_less_than
+# (= before) over several COMMITS; a later round may re-add a name with other hints or another factory (across commits that
+# is not a conflict: the re-added name replaces the earlier one).  Every round also registers a consumer (a view / route /
+# subscriber using the custom predicates in force) in the same commit, so that PredicateList.make is consulted between the
+# rounds, and after the commit make() is called directly with every predicate we have a value for: the order of the
+# predicates it returns IS the order make() uses (weights), and the class of each returned predicate tells which factory is
+# in force.  Model: the plain sorter fed with the built-in predicates (no hints) and then the declarations made so far.
+PRED_KINDS = ('view', 'route', 'subscriber')
+PRED_NAMES = ['pa', 'pb', 'pc']            # ids 2..4
+PRED_ABSENT = ['zq1', 'zq2', 'zq3']        # ids 9..11
+_PRED_FACTORIES = {}
+_PRED_BUILTINS = {}
+
+
+def pred_factory(n, variant):
+    key = (n, variant)
+    if key not in _PRED_FACTORIES:
+        class P:
+            def __init__(self, val, info):
+                self.val = val
+
+            def text(self):
+                return '%s#%d = %r' % (PRED_NAMES[n - 2], variant, self.val)
+            phash = text
+
+            def __call__(self, *args):
+                return True
+        P._c18 = key
+        P.__name__ = 'P_%s_%d' % (PRED_NAMES[n - 2], variant)
+        _PRED_FACTORIES[key] = P
+    return _PRED_FACTORIES[key]
+
+
+def pred_builtins(kind):
+    """(names of the predicates a fresh Configurator has for `kind`, values make() accepts for them) — read from the tree
+    under test once per run"""
+    if kind not in _PRED_BUILTINS:
+        from pyramid.config import Configurator
+        from pyramid.registry import predvalseq
+        from pyramid.interfaces import IRequest
+        config = Configurator()
+        pl = config.get_predlist(kind)
+        names = list(pl.sorter.names)
+        cand = {'xhr': True, 'request_method': 'GET', 'path_info': '/a', 'request_param': 'a', 'header': 'X-A',
+                'accept': 'text/html', 'containment': object, 'request_type': IRequest, 'match_param': 'a=1',
+                'physical_path': '/a', 'is_authenticated': True, 'effective_principals': 'x', 'traverse': '/x',
+                'custom': predvalseq((lambda *a: True,))}
+        values = {}
+        for nme in names:
+            if nme in cand:
+                try:
+                    pl.make(config, **{nme: cand[nme]})
+                    values[nme] = cand[nme]
+                except Exception:
+                    pass
+        _PRED_BUILTINS[kind] = (names, values)
+    return _PRED_BUILTINS[kind]
+
+
+def pred_name(i, kind):
+    if i == 0: return FIRST
+    if i == 1: return LAST
+    if i < 9: return PRED_NAMES[i - 2]
+    if i < 20: return PRED_ABSENT[i - 9]
+    return pred_builtins(kind)[0][i - 20]
+
+
+def pred_arg(lst, scalar, kind):
+    if lst is None:
+        return None
+    vals = [pred_name(i, kind) for i in lst]
+    return vals[0] if scalar and len(vals) == 1 else tuple(vals)
+
+
+def classify_config_error(e):
+    s_ = str(e)
+    if isinstance(e, CyclicDependencyError) or 'CyclicDependencyError' in s_ or 'Implicit ordering cycle' in s_:
+        return 'cyclic'
+    if 'Unsatisfied' in s_:
+        return 'unsat'
+    if 'conflict' in s_.lower():
+        return 'conflict'
+    return 'error:' + s_[:80]
+
+
+def impl_pred_history(case):
+    from pyramid.config import Configurator
+    from pyramid.response import Response
+    from zope.interface import Interface
+    kind = case['kind']
+    bnames, bvalues = pred_builtins(kind)
+    out = []
+    try:
+        config = Configurator()
+    except Exception as e:
+        return [{'result': 'raised-in-setup:' + type(e).__name__}]
+    in_force = {}
+    for k, ops in enumerate(case['rounds']):
+        try:
+            for n, a, b, sa, sb, fac in ops:
+                getattr(config, 'add_%s_predicate' % kind)(
+                    PRED_NAMES[n - 2], pred_factory(n, fac),
+                    weighs_more_than=pred_arg(a, sa, kind), weighs_less_than=pred_arg(b, sb, kind))
+                in_force[n] = fac
+            kw = {PRED_NAMES[n - 2]: 1 for n in in_force}
+            if kind == 'view':
+                config.add_view(lambda c, r: Response('ok'), name='round%d' % k, **kw)
+            elif kind == 'route':
+                config.add_route('round%d' % k, '/round%d' % k, **kw)
+            else:
+                config.add_subscriber(lambda *ev: None, Interface, **kw)
+            config.commit()
+            pl = config.get_predlist(kind)
+            vals = dict(bvalues)
+            vals.update(kw)
+            order, preds, phash = pl.make(config, **vals)
+        except (CyclicDependencyError, ConfigurationError) as e:
+            out.append({'result': classify_config_error(e)}); break
+        except Exception as e:
+            out.append({'result': 'raised:' + type(e).__name__}); break
+        fac2name = {}
+        for nme in bnames:
+            fac2name[pl.sorter.name2val.get(nme)] = nme
+        seq, variants = [], {}
+        for p_ in preds:
+            c18 = getattr(type(p_), '_c18', None)
+            if c18 is not None:
+                seq.append(c18[0]); variants[str(c18[0])] = c18[1]
+            elif type(p_) in fac2name:
+                seq.append(20 + bnames.index(fac2name[type(p_)]))
+            else:
+                seq.append(-1)
+        out.append({'result': 'ok', 'order': seq, 'variants': variants})
+    return out
+
+
+def pred_prefix_ops(case, k):
+    """the add calls on the sorter up to and including round k: the built-ins (no hints), then the user's"""
+    bnames, _ = pred_builtins(case['kind'])
+    ops = [[20 + i, None, None, False, False] for i in range(len(bnames))]
+    ops += [[o[0], o[1], o[2], o[3], o[4]] for r in case['rounds'][:k + 1] for o in r]
+    return {'flavour': 'plain', 'ops': ops}
+
+
+def check_pred_history(case, mos):
+    gots = impl_pred_history(case)
+    mism = viol = None
+    _, bvalues = pred_builtins(case['kind'])
+    bnames = pred_builtins(case['kind'])[0]
+    observable = {20 + i for i, nme in enumerate(bnames) if nme in bvalues} | {2, 3, 4}
+    for k, got in enumerate(gots):
+        full = pred_prefix_ops(case, k)
+        in_force = {}
+        for r in case['rounds'][:k + 1]:
+            for o in r:
+                in_force[o[0]] = o[5]
+        mo = mos[k] if mos else None
+        if mo is not None and not mism:
+            if 'ok' in mo['result']:
+                exp_model = {'result': 'ok', 'order': [x for x in mo['result']['ok'] if x in observable],
+                             'variants': {str(n): f for n, f in sorted(in_force.items())}}
+            else:
+                exp_model = {'result': 'cyclic' if 'cyclic' in mo['result'] else 'unsat'}
+            g = dict(got)
+            if 'variants' in g:
+                g['variants'] = dict(sorted(g['variants'].items()))
+            if g != exp_model:
+                mism = {'case': case, 'round': k, 'impl': got, 'model': exp_model, 'stream': 'predicates'}
+        if viol:
+            continue
+        ex = expected(full)
+        want = 'unsat' if (ex['unsat_b'] or ex['unsat_a']) else 'cyclic' if ex['cyclic'] else 'ok'
+        v = None
+        if got['result'] != want:
+            v = 'expected outcome %s for the declarations in force' % want
+        elif want == 'ok':
+            seq = got['order']
+            pos = {n: i for i, n in enumerate(seq)}
+            if len(pos) != len(seq) or -1 in pos:
+                v = 'make() returned a predicate twice / an unknown predicate'
+            elif {n for n in seq if n < 9} != set(in_force):
+                v = 'the custom predicates make() used are not the ones in force'
+            elif got['variants'] != {str(n): f for n, f in in_force.items()}:
+                v = 'a re-added predicate name does not use its latest factory'
+            else:
+                for a, b in ex['arcs']:
+                    if a in pos and b in pos and not pos[a] < pos[b]:
+                        v = 'constraint %s weighs less than %s not honoured by the order make() uses' % (a, b)
+                        break
+        if v:
+            viol = {'case': case, 'round': k, 'impl': got, 'expected': v, 'stream': 'predicates',
+                    'detail': '%s predicates after round %d of a multi-commit history: %s' % (case['kind'], k, v)}
+    return mism, viol, (gots[-1] if gots else {'result': 'none'})
+
+
+def gen_pred_constraint(rng, npool, nb):
+    r = rng.random()
+    if r < 0.35:
+        return None
+    cands = list(range(2, 2 + npool)) + ([20, 21, 20 + nb - 1] if nb >= 2 else []) + [0, 1] + [9, 10]
+    weights = [4] * npool + ([2, 1, 2] if nb >= 2 else []) + [1, 1] + [1, 1]
+    if r < 0.75:
+        return [rng.choices(cands, weights)[0]], True
+    return [rng.choices(cands, weights)[0] for _ in range(2)], False
+
+
+def gen_pred_history(rng):
+    kind = rng.choice(['view', 'view', 'route', 'subscriber'])
+    nb = len(pred_builtins(kind)[0])
+    npool = rng.randint(1, 3)
+    rounds = []
+    for r in range(rng.choice([2, 2, 3, 3, 4])):
+        ops = []
+        for n in rng.sample(range(2, 2 + npool), rng.randint(1, npool)):
+            a = gen_pred_constraint(rng, npool, nb); b = gen_pred_constraint(rng, npool, nb)
+            ops.append([n, a and a[0], b and b[0], bool(a and a[1]), bool(b and b[1]), rng.randrange(2)])
+        rounds.append(ops)
+    return {'flavour': 'predicate', 'kind': kind, 'rounds': rounds}
+
+
+def pred_hint_shapes(x, y, nb):
+    """(after, before) shapes for name x relative to another custom name y"""
+    sh = [(None, None), ([y], None), (None, [y]), ([9, y], None), (None, [9, y]), ([9], None), ([y], [y])]
+    if nb >= 2:
+        sh += [(None, [20]), ([20 + nb - 1], None)]
+    return sh
+
+
+def small_pred_histories(kind, nrounds):
+    """two custom names added in round 0 (the second with every hint shape relative to the first); every later round
+    re-adds one of them with every hint shape and either factory, or adds a third name"""
+    nb = len(pred_builtins(kind)[0])
+
+    def op(n, sh, fac):
+        a, b = sh
+        return [n, a, b, bool(a and len(a) == 1), bool(b and len(b) == 1), fac]
+    later = []
+    for x, y in ((2, 3), (3, 2)):
+        for sh in pred_hint_shapes(x, y, nb):
+            for fac in (0, 1):
+                later.append([op(x, sh, fac)])
+    for sh in pred_hint_shapes(4, 2, nb):
+        later.append([op(4, sh, 0)])
+    for sh0 in pred_hint_shapes(3, 2, nb):
+        first = [op(2, (None, None), 0), op(3, sh0, 0)]
+        for rest in itertools.product(later, repeat=nrounds - 1):
+            yield {'flavour': 'predicate', 'kind': kind, 'rounds': [first] + [list(r) for r in rest]}
+
+
+def valid_pred_history(c):
+    try:
+        if c.get('flavour') != 'predicate' or c.get('kind') not in PRED_KINDS or not c.get('rounds') or any(not r for r in c['rounds']):
+            return False
+        nb = len(pred_builtins(c['kind'])[0])
+        for r in c['rounds']:
+            if len({o[0] for o in r}) < len(r):
+                return False
+            for o in r:
+                if not (len(o) == 6 and o[0] in (2, 3, 4) and o[5] in (0, 1) and isinstance(o[3], bool) and isinstance(o[4], bool)):
+                    return False
+                for x in (o[1], o[2]):
+                    if x is not None and not (isinstance(x, list) and x and all(
+                            isinstance(y, int) and (0 <= y <= 4 or 9 <= y <= 11 or 20 <= y < 20 + nb) for y in x)):
+                        return False
+        return True
+    except Exception:
+        return False
+
+
+def shrink_pred_history(case):
+    def bad(c):
+        return valid_pred_history(c) and check_pred_history(c, None)[1] is not None
+    try:
+        small = vfutil.shrink(case, bad, max_steps=200)
+        return check_pred_history(small, None)[1] or check_pred_history(case, None)[1]
+    except Exception:
+        return check_pred_history(case, None)[1]
 
 
 # ---------------------------------------------------------------- configurator streams
@@ -946,7 +1229,7 @@ def run(ctx):
     samples += tcases[:1]
 
     # 2b. tween histories (several commits, re-adds, chain asked for after every round)
-    hcases = [c for _, c in ctx.corpus() if 'rounds' in c] + [gen_tween_history(rng) for _ in range(ctx.n(120, 2500))]
+    hcases = [c for _, c in ctx.corpus() if 'rounds' in c and c.get('flavour') == 'tween'] + [gen_tween_history(rng) for _ in range(ctx.n(120, 2500))]
     flat, index = [], []
     for c in hcases:
         ks = list(range(len(c['rounds'])))
@@ -966,6 +1249,49 @@ def run(ctx):
         if len(set(names)) < len(names): dist['history_readds'] += 1
     samples += hcases[-1:]
 
+    # 2c. predicate histories through the configurator (several commits, re-adds with other hints / factories, make()
+    # consulted between the rounds): corpus, all small two-round histories for views, sampled ones for routes and
+    # subscribers, random ones
+    pcases = [c for _, c in ctx.corpus() if c.get('flavour') == 'predicate']
+    pcases += list(small_pred_histories('view', 2))
+    for kind in ('route', 'subscriber'):
+        allk = list(small_pred_histories(kind, 2))
+        pcases += rng.sample(allk, min(len(allk), ctx.n(60, 10 ** 6)))
+    if ctx.tier != 'quick':
+        allk = list(small_pred_histories('view', 3))
+        pcases += rng.sample(allk, min(len(allk), 3000))
+    pcases += [gen_pred_history(rng) for _ in range(ctx.n(200, 4000))]
+    flat, index = [], []
+    for c in pcases:
+        ks = list(range(len(c['rounds'])))
+        index.append((len(flat), len(ks)))
+        flat += [model_case(pred_prefix_ops(c, k)) for k in ks]
+    pmodel = ctx.run_model(flat) if ctx.driver_path else None
+    dist['predicate_kinds'] = {}; dist['predicate_rounds'] = {}; dist['predicate_readds'] = 0; dist['predicate_factory_changes'] = 0
+    pviol = 0
+    for c, (st, ln) in zip(pcases, index):
+        m, v, got = check_pred_history(c, pmodel[st:st + ln] if pmodel else None)
+        if m: mism.append(m)
+        elif pmodel is not None: agree += 1
+        if v:
+            pviol += 1
+            if pviol <= 5:
+                viol.append(shrink_pred_history(c) or v)
+        account('predicates', c, got)
+        vfutil.bump(dist['predicate_kinds'], c['kind'])
+        vfutil.bump(dist['predicate_rounds'], len(c['rounds']))
+        seenf = {}
+        readd = facchg = False
+        for r in c['rounds']:
+            for o in r:
+                if o[0] in seenf:
+                    readd = True
+                    if seenf[o[0]] != o[5]: facchg = True
+                seenf[o[0]] = o[5]
+        dist['predicate_readds'] += readd
+        dist['predicate_factory_changes'] += facchg
+    samples += pcases[-1:]
+
     # 3. view derivers through the configurator
     dcases = [{'flavour': 'deriver', 'ops': []}] + [gen_deriver_case(rng, gen) for _ in range(ctx.n(150, 3000))]
     dmodel = ctx.run_model([{'first': 0, 'last': 1, 'defBefore': None, 'defAfter': [0], 'explicit': [],
@@ -978,7 +1304,7 @@ def run(ctx):
         account('derivers', case, got)
     samples += dcases[1:2]
 
-    total = len(cases) + len(tcases) + len(dcases) + len(hcases) + len(hist)
+    total = len(cases) + len(tcases) + len(dcases) + len(hcases) + len(hist) + len(pcases)
     excl = {'flavour': 'plain', 'ops': [[2, [], None, False, False], [2, None, [1], False, True]]}
     notes = ['excluded point (Props.C18.empty_alternatives_excluded) replayed on the real code: %s' % json.dumps(impl_direct(excl)['result']),
              'excluded point: an EMPTY alternatives list (after=[] / before=[]) can never be satisfied and leaves a stale '
@@ -1048,7 +1374,25 @@ def finish_search(ctx, viol, n, exhaustive):
     for _ in range(300):
         _, v, _ = check_deriver(gen_deriver_case(ctx.rng, gen), None, gen)
         if v: viol.append(v); break
-    return {'violations': viol, 'searched': n + 601, 'exhaustive': exhaustive}
+    # predicate histories: every small two-round history for the three kinds, then three-round ones (time-boxed)
+    import time
+    pstop = time.time() + (40 if ctx.tier == 'quick' else 400)
+    np_ = 0
+    found = False
+    for nr in (2, 3):
+        for kind in PRED_KINDS:
+            for pc in small_pred_histories(kind, nr):
+                np_ += 1
+                _, v, _ = check_pred_history(pc, None)
+                if v:
+                    viol.append(shrink_pred_history(pc) or v); found = True
+                    break
+                if np_ % 50 == 0 and (time.time() > pstop or ctx.time_left() < 45):
+                    exhaustive = False; found = True
+                    break
+            if found: break
+        if found: break
+    return {'violations': viol, 'searched': n + 601 + np_, 'exhaustive': exhaustive}
 
 
 def replay(ctx, rep):
@@ -1060,6 +1404,11 @@ def replay(ctx, rep):
         stream = 'history'
         mo = ctx.run_model([model_history(case)])[0] if ctx.driver_path else None
         m, v, got = check_history(case, mo)
+    elif case.get('flavour') == 'predicate':
+        stream = 'predicates'
+        mo = ctx.run_model([model_case(pred_prefix_ops(case, k)) for k in range(len(case['rounds']))]) if ctx.driver_path else None
+        m, v, got = check_pred_history(case, mo)
+        got = impl_pred_history(case)
     elif stream == 'direct':
         mo = ctx.run_model([model_case(case)])[0] if ctx.driver_path else None
         m, v, got = check_direct(case, mo)
